@@ -252,10 +252,13 @@ def _judge_model(model: J, col: common.Collector, origin: str) -> None:
         detail["signature"] = [str(x) for x in sig]
         col.violation(sig, detail)
 
-    # ---- loading
+    # ---- loading (every third model as two containers, the derived layers' document first)
     col.ev()
+    split = (sum(len(l["name"]) for l in model["layers"]) + len(model["layers"])) % 3 == 0
+    if split:
+        col.count("models-loaded-from-two-containers")
     try:
-        db = odxgen.load_xml(c15gen.emit_all(model))
+        db = odxgen.load_xml(c15gen.emit_all(model, split=split))
     except Exception as e:
         if not omitted:
             bad(("load-raises", type(e).__name__, "values-present"),
